@@ -15,7 +15,7 @@ PROP = "C09"
 META = {
  "engine": "P-pattern-algebra",
  "text": "Coq theorems (Props/C09.v, closed under the global context) prove on the executable model of the pattern classes (Pat/Step.v, transcribed from core.py / sequence.py / scalar.py): once a pattern of the sticky fragment fpat (constants, sequences of scalars, series, ranges, geometric series, reverse, ping-pong with scalar terminating parameters; the 15 operators, &, abs, int, skip-if, references, stutter, counter, pad, pad-to-multiple, collapse, no-repeats, changed, diff, round, wrap, loop, subsequence, index-of, dict-key, array-index, concatenate over them, nested to any depth; closed under next(): C09_fragment_closed) has raised StopIteration, no later next() yields a value (C09_sticky, C09_sticky_transformers: per-class invariants, induction on the nesting; still open, C09_sticky_remaining_classes_partial: PDict, PArrayIndex over a literal list and pattern items, covered by the correspondence and the oracle only); nextn(n) is the list of the first min(n, remaining) results of repeated next and leaves the object where those calls leave it, all(m) likewise followed by reset(), len is the length of all(); copy() is the identity on the tree model, so a copy continues with exactly the outputs of the original; for pattern GRAPHS with shared sub-pattern objects (Pat/Dag.v: heap of cells, operator expressions and PDict roots over addresses, copy = deepcopy with one memo) every script of next/nextn/copy on any number of handles observes what the original alone produces at the handle's position - continuation and independence for all DAGs (C09_dag_copy_interleavings), tied to the repository by generated DAG programs with copy-heavy scripts, judged against a fresh build and compared with the model inside Coq; several instances of one class and their copies alive together, each rewound at different moments (Pat/Instances.v, generic over objects whose methods are functions of the object alone; Pat/LSystem.v for PLSystem, whose bracket stack is per-object state): every object observes what it observes alone (C09_instances_independent, C09_instances_copy, C09_lsystem_instances_independent, C09_lsystem_sticky), tied to the repository by the instances stream (PLSystem with bracketed rules, engine-P expressions, seeded stochastic patterns; positions per handle, a rewind puts that handle back to 0 and no other). The model is tied to the repository on every run by scripts interleaving next/nextn/all/len/for/copy on up to four handles, compared inside Coq; an implementation-only oracle checks stickiness, helper results against repeated next() of a fresh instance, and independence of copies. For 'a drained track stays drained' Pat/Drained.v models Timeline.tick/Track.tick for a note track over any stream (in particular the stochastic machines of Pat/Chance.v, generator as data): once the stream is dead the re-polling track plays nothing more and finishes when its last note-off is due (C09_drained_track_stays_drained); PShuffle and PWhite are sticky in any state for any generator (C09_pshuffle_sticky, C09_pwhite_sticky); tied to the code by comparing, inside Coq, ticks-until-removal and notes of real tracks with gate > 1 and the StopIteration shape of PShuffle/PWhite. A library stream (oracle only) runs every Pattern subclass of isobar.pattern (list read from the live package, fail closed; seeded stochastic classes, nestings over them) through >= 6 polls after the first StopIteration, helper/copy scripts around and after the end, and a Track whose last note outlasts the stream.",
- "note": "Trusted: Coq kernel + VM; the harness; copy.deepcopy itself (modelled as copy_root: one memo, every reachable cell copied once; the correspondence with interleavings validates it against the implementation). Sharing below classes other than the operators and PDict (PSequence items, PConcatenate inputs, PStutter count ...) is judged by the oracle only; stickiness and reset() of graphs are not judged. Revival by design is excluded from the stickiness oracle and theorems: PReset (re-arms its input), terminating parameters given as varying patterns (re-read at every step, C12). PArrayIndex over a list containing patterns with a pattern index used to revive (repaired: C09-parrayindex-revives); it is generated by its own stratum and judged like every other class. Classes outside the model (PPermut, PArpeggiator, stochastic, PFade*, tonal, PMap* ...) are judged by the oracle only (library stream); classes drawing from the process-wide random module (PExplorer, PFadeNotewiseRandom, PLSystem '?') for stickiness and track end only; PStaticPattern, PW*, PLFO, PMIDIControl, PMonomeArcControl are excluded (need a running timeline / hardware). The drained-track model covers constant duration and gate on the quarter-tick grid. Known findings: PFadeNotewise/PFadeNotewiseRandom revive, PPatternGeneratorAction raises TypeError after its StopIteration.",
+ "note": "Trusted: Coq kernel + VM; the harness; copy.deepcopy itself (modelled as copy_root: one memo, every reachable cell copied once; the correspondence with interleavings validates it against the implementation). Sharing below classes other than the operators and PDict (PSequence items, PConcatenate inputs, PStutter count ...) is judged by the oracle only; stickiness and reset() of graphs are not judged. Revival by design is excluded from the stickiness oracle and theorems: PReset (re-arms its input), terminating parameters given as varying patterns (re-read at every step, C12). PArrayIndex over a list containing patterns with a pattern index used to revive (repaired: C09-parrayindex-revives); it is generated by its own stratum and judged like every other class. Classes outside the model (PPermut, PArpeggiator, stochastic, PFade*, tonal, PMap* ...) are judged by the oracle only (library stream); classes drawing from the process-wide random module (PExplorer, PFadeNotewiseRandom, PLSystem '?') for stickiness and track end only; PW*, PLFO, PMIDIControl, PMonomeArcControl are excluded (need a running timeline / hardware); PStaticPattern (clock-dependent) is polled from a stub / hand-ticked timeline over histories of clock advances past its end (Pat/Clocked.v, Props/C09Clocked.v: sticky for every history whose clock does not run backwards). The drained-track model covers constant duration and gate on the quarter-tick grid. Known findings: PFadeNotewise/PFadeNotewiseRandom revive, PPatternGeneratorAction raises TypeError after its StopIteration.",
 }
 
 REFN = 40          # calls of next() recorded for the reference run
@@ -286,7 +286,7 @@ LIB_RECIPES = {
 }
 # classes that cannot be given small finite arguments outside their environment: excluded, with the reason
 LIB_EXCLUDED = {
-    "PStaticPattern": "reads the clock of a running Timeline (raises outside one); its output is a function of time, not of the number of next() calls",
+    "PStaticPattern": "reads the clock of a running Timeline (raises outside one); its output is a function of time, not of the number of next() calls: not in the library stream, it has its own stratum (check_clocked: histories of clock advances and next() past the end, Pat/Clocked.v, Props/C09Clocked.v)",
     "PWInterpolate": "time-warp pattern: needs the Timeline it is attached to (AttributeError outside one); infinite",
     "PWSine": "time-warp pattern: needs the Timeline it is attached to; infinite",
     "PWRallantando": "time-warp pattern: needs the Timeline it is attached to; infinite",
@@ -1246,6 +1246,228 @@ def check_arrayindex_revival(run, gen):
     run.cov["arrayindex_stratum"] = {"cases": len(cases), "reviving": len(reviving)}
 
 
+# ---- clock-dependent patterns: histories of (advance the clock by dt, next()) steps that go on past the end ---------------
+# static.py: PStaticPattern (PCurrentTime and PGlobals of the same file never end and are in LIB_RECIPES).  The pattern is
+# polled from inside a method of a timeline (a stub with a settable clock, or a real Timeline on a DummyClock ticked by hand),
+# on a clock that advances by less than / exactly / more than element_duration between polls, before AND after the end.
+CLK_UNIT = 32      # one clock unit = 1/32 beat
+CLK_STEPS = 30
+CLOCKED_HEADER = """From Isobar Require Import Base.Prelude Pat.Clocked.
+Open Scope Z_scope.
+"""
+
+
+def clocked_inner(rng):
+    w = rng.random()
+    if w < 0.55:
+        return "iso.PSequence(%r, %d)" % (_ints(rng, 1, 4), rng.choice([1, 1, 2]))
+    if w < 0.65:
+        return "iso.PSeries(%d, %d, %d)" % (rng.randint(40, 80), rng.randint(1, 5), rng.randint(1, 5))
+    if w < 0.72:
+        return "iso.PSequence([], 1)"
+    return _fin_input(rng)
+
+
+def clocked_case(rng, i):
+    inner = clocked_inner(rng)
+    durs = [rng.choice([8, 16, 16, 32, 32, 32, 48, 64])]
+    w = rng.random()
+    if w < 0.15:                      # element_duration as an endless pattern (zero-length elements are skipped within one call)
+        durs = [rng.choice([0, 8, 16, 32, 48]) for _ in range(rng.randint(2, 3))]
+        if not any(durs):
+            durs[0] = 16
+    dsrc = repr(durs[0] / CLK_UNIT) if len(durs) == 1 else "iso.PSequence(%r)" % [d / CLK_UNIT for d in durs]
+    if len(durs) == 1 and durs[0] % CLK_UNIT == 0 and rng.random() < 0.5:
+        dsrc = str(durs[0] // CLK_UNIT)
+    src = "iso.PStaticPattern(%s, %s)" % (inner, dsrc)
+    wrap, inners = None, [inner]
+    w = rng.random()
+    if w < 0.12:
+        wrap = rng.randint(1, 12)
+        src = "(%s + %d)" % (src, wrap)
+    elif w < 0.2:                     # a clocked pattern as the inner pattern of a clocked pattern (oracle only)
+        wrap = "nested"
+        src = "iso.PStaticPattern(%s, %s)" % (src, repr(rng.choice([8, 16, 32, 48]) / CLK_UNIT))
+    d = max(durs)
+    g = rng.choice([1, max(1, d // 4), max(1, d // 2)])
+    steps = [rng.choice([0, 1, g, g, 2 * g, d - 1, d, d + 1, d + g, 3 * d]) for _ in range(CLK_STEPS)]
+    steps[0] = rng.choice([0, 0, g])
+    timeline = "stub" if i % 3 else rng.choice([32, 480])
+    track = None
+    if i % 4 == 0 and all(durs):
+        tpb = rng.choice([32, 32, 64])
+        track = {"tpb": tpb, "dur": list(rng.choice([(1, 2), (1, 4), (1, 1), (3, 4)])), "gate": list(rng.choice(TRACK_GATES))}
+        # every element can be stretched to the next poll: a generous bound, then the last note, then 3 beats
+        beats = 12 * (Fraction(d, CLK_UNIT) + Fraction(*track["dur"])) + Fraction(*track["dur"]) * Fraction(*track["gate"]) + 3
+        track["budget"] = int(beats * tpb) + 8
+    return {"src": src, "inner": inners, "durs": durs, "wrap": wrap, "timeline": timeline, "t0": rng.choice([0, 0, 5, 32, 77]),
+            "steps": steps, "track": track}
+
+
+def clocked_snippet(c, upto=None):
+    steps = c["steps"][:upto] if upto else c["steps"]
+    return ("import isobar as iso\n"
+            "class Timeline:                       # Pattern.timeline looks for a `self` of a class of this name on the call stack\n"
+            "    current_time = 0.0\n"
+            "    def poll(self, p):\n"
+            "        try:\n            return next(p)\n        except StopIteration:\n            return 'StopIteration'\n"
+            "tl, p = Timeline(), %s\n"
+            "tl.current_time = %r\n"
+            "for dt in %r:                         # clock units of 1/%d beat\n"
+            "    tl.current_time += dt / %d\n"
+            "    print(tl.current_time, tl.poll(p))\n" % (c["src"], c["t0"] / CLK_UNIT, steps, CLK_UNIT, CLK_UNIT))
+
+
+def clocked_track_snippet(c):
+    t = c["track"]
+    return ("import isobar as iso\n"
+            "class Rec(iso.OutputDevice):\n    ons = 0\n    def note_on(self, note=60, velocity=64, channel=0):\n        self.ons += 1\n"
+            "    def note_off(self, note=60, channel=0):\n        pass\n"
+            "dev = Rec()\ntl = iso.Timeline(120, output_device=dev, clock_source=iso.DummyClock(ticks_per_beat=%d))\ntl.stop_when_done = False\n"
+            "tl.schedule({'note': %s, 'duration': %d / %d, 'gate': %d / %d})\n"
+            "for _ in range(%d):\n    tl.tick()\nprint(dev.ons, 'note-ons; tracks left:', len(tl.tracks))\n"
+            % (t["tpb"], c["src"], t["dur"][0], t["dur"][1], t["gate"][0], t["gate"][1], t["budget"]))
+
+
+def clocked_expected_ons(values, durs, dur):
+    """the number of notes of a track playing PStaticPattern(values, durs) with event duration `dur` (beats, Fraction):
+    written from the description of the class (each value is held for element_duration beats, counted from the poll that
+    began it; the track polls the pattern at 0, dur, 2 dur ... and ends at the first poll the pattern has nothing for)"""
+    t, k, start, held, n = Fraction(0), 0, None, None, 0
+    vals = list(values)
+    while n < 10000:
+        while start is None or t - start >= held:
+            if not vals:
+                return n
+            vals.pop(0)
+            start, held = t, Fraction(durs[k % len(durs)], CLK_UNIT)
+            k += 1
+        n += 1
+        t += dur
+    return n
+
+
+def check_clocked(run):
+    rng = run.rng
+    cases = [clocked_case(rng, i) for i in range(1200 if run.tier == "thorough" else 180)]
+    shards = 12
+    parts = [cases[i::shards] for i in range(shards) if cases[i::shards]]
+    outs = run.impl_parallel("c09_impl", [{"cases": [{"clocked": {k: c[k] for k in ("src", "inner", "timeline", "t0", "steps", "track")}} for c in part]} for part in parts])
+    for part, out in zip(parts, outs):
+        for c, r in zip(part, out["cases"]):
+            c["out"] = r
+    terms, tcases = [], []
+    stats = {"cases": len(cases), "ended": 0, "polled_after_end_within_duration": 0, "polled_after_end_beyond_duration": 0,
+             "reviving": 0, "tracks": 0, "tracks_with_values": 0, "model_compared": 0, "real_timeline": 0, "stub_timeline": 0}
+    reported = 0
+    for c in cases:
+        run.count(); run.dist("stream.clocked"); run.dist("clocked.timeline." + ("stub" if c["timeline"] == "stub" else "real"))
+        stats["stub_timeline" if c["timeline"] == "stub" else "real_timeline"] += 1
+        if c["wrap"] is not None:
+            run.dist("clocked.wrap." + ("nested" if c["wrap"] == "nested" else "add"))
+        if len(c["durs"]) > 1:
+            run.dist("clocked.duration-pattern")
+        o = c["out"]
+        if o["status"] or not o.get("obs") or o["obs"][0] is not None and o["obs"][0] != {"y": None}:
+            run.discard("clocked-impl-" + str(o["status"] or "constructor")); continue
+        obs = o["obs"]
+        run.cov["oracle_evaluations"] += len(obs)
+        # -- oracle (property text): once StopIteration, StopIteration on every later next(), whatever the clock has done
+        d = judge_sticky(obs)
+        stops = [i for i, x in enumerate(obs[1:]) if x == "stop"]
+        if stops:
+            stats["ended"] += 1
+            first = stops[0]
+            since, within, beyond = 0, False, False
+            for dt in c["steps"][first + 1:]:
+                since += dt
+                if 0 < since < min(x for x in c["durs"] if x) :
+                    within = True
+                if since > max(c["durs"]):
+                    beyond = True
+            stats["polled_after_end_within_duration"] += within
+            stats["polled_after_end_beyond_duration"] += beyond
+            run.dist("clocked.after-end.%s%s" % ("within" if within else "", "+beyond" if beyond else ""))
+            if first > 0 and within and beyond:
+                run.nontrivial("clocked " + c["src"] + repr(c["steps"]) + str(c["timeline"]))
+        if d is not None:
+            stats["reviving"] += 1
+            if reported < 2:
+                reported += 1
+                run.violation({"kind": "sticky", "class": "PStaticPattern", "after": "raise" if d["observed"].startswith("raise") else "value",
+                               "stratum": "clocked"}, {
+                    "case": {"clocked": {k: c[k] for k in ("src", "inner", "durs", "wrap", "timeline", "t0", "steps")}},
+                    "expected": "StopIteration on every next() after call %d (the first StopIteration), however far the clock has advanced" % d["first_stop"],
+                    "observed": "call %d (clock advanced by %s/%d beat since the end): %s" % (
+                        d["index"], sum(c["steps"][d["first_stop"] + 1:d["index"] + 1]), CLK_UNIT, d["observed"]),
+                    "observed_outputs": [pretty_obs(x) for x in obs], "python": clocked_snippet(c, d["index"] + 1)})
+        # -- the inner pattern on its own: the values the model is given
+        inner = o["inner"][0] if o.get("inner") else None
+        vals = None
+        if inner:
+            vals = []
+            for x in inner[1:]:
+                if x == "stop":
+                    break
+                if not (isinstance(x, dict) and isinstance(x.get("y"), int) and not isinstance(x.get("y"), bool)):
+                    vals = None
+                    break
+                vals.append(x["y"])
+            if vals is not None and "stop" not in inner[1:]:
+                vals = None
+        # -- drained track: the stream ends while its last note still sounds; the track must end, with the notes of the values
+        if c["track"] is not None and o.get("track") is not None:
+            t = o["track"]
+            stats["tracks"] += 1
+            run.dist("clocked.track")
+            want = clocked_expected_ons(vals, c["durs"], Fraction(*c["track"]["dur"])) if vals is not None and c["wrap"] != "nested" else None
+            if want:
+                stats["tracks_with_values"] += 1
+            playable = vals is not None and all(0 <= v + (c["wrap"] if isinstance(c["wrap"], int) else 0) <= 127 for v in vals)
+            bad = None
+            if t.get("error") and playable:
+                bad = "the timeline raised %s" % t["error"]
+            elif not t.get("error") and not t["ended"]:
+                bad = "the track is still on the timeline after %d ticks (%d note-ons)" % (t["ticks"], len(t["ons"]))
+            elif not t.get("error") and want is not None and playable and len(t["ons"]) != want:
+                bad = "%d note-ons, expected %d" % (len(t["ons"]), want)
+            if bad and reported < 4:
+                reported += 1
+                run.violation({"kind": "drained-track", "class": "PStaticPattern", "stratum": "clocked"}, {
+                    "case": {"clocked": {k: c[k] for k in ("src", "inner", "durs", "wrap", "track")}},
+                    "expected": "the track plays %s notes and leaves the timeline when the last one has ended" % (want if want is not None else "its"),
+                    "observed": bad, "python": clocked_track_snippet(c)})
+        # -- correspondence with Pat/Clocked.v (s_run over list_step / cyc_dur)
+        if vals is not None and c["wrap"] != "nested" and d is None:
+            k = c["wrap"] if isinstance(c["wrap"], int) else 0
+            exp = []
+            for x in obs[1:]:
+                if x == "stop":
+                    exp.append("CStop")
+                elif isinstance(x, dict) and isinstance(x.get("y"), int) and not isinstance(x.get("y"), bool):
+                    exp.append("CYield %s" % zlit(x["y"] - k))
+                else:
+                    exp = None
+                    break
+            if exp is not None:
+                terms.append("couts_eqb (static_outcomes %s %s %s %s) %s" % (zlist(vals), zlist(c["durs"]), zlit(c["t0"]), zlist(c["steps"]), lst(exp)))
+                tcases.append(c)
+    failing = run.coq_failing(CLOCKED_HEADER, terms)
+    stats["model_compared"] = len(terms)
+    run.cov["traces_validated_against_impl"] += len(terms) - len(failing)
+    if failing:
+        c = tcases[failing[0]]
+        run.violation({"kind": "correspondence", "class": "PStaticPattern", "stratum": "clocked"}, {
+            "broken": "correspondence Pat/Clocked.v (s_next / s_run) vs PStaticPattern.__next__: C09_clocked_sticky no longer speaks about this code",
+            "case": {"clocked": {k: c[k] for k in ("src", "inner", "durs", "wrap", "timeline", "t0", "steps")}},
+            "observed": [pretty_obs(x) for x in c["out"]["obs"]],
+            "model": run.coq_eval(CLOCKED_HEADER, "static_outcomes %s %s %s %s" % (zlist([x["y"] for x in c["out"]["inner"][0][1:] if x != "stop"]), zlist(c["durs"]), zlit(c["t0"]), zlist(c["steps"]))),
+            "python": clocked_snippet(c)}, found_input=False)
+    run.cov["clocked_stratum"] = stats
+    if not stats["polled_after_end_within_duration"] or not stats["polled_after_end_beyond_duration"] or not stats["tracks_with_values"]:
+        raise CheckError("clocked stratum: coverage floor not reached %r" % stats)
+
+
 def check(run):
     rng = run.rng
     thorough = run.tier == "thorough"
@@ -1370,6 +1592,7 @@ def check(run):
     # ---- pattern graphs with shared sub-pattern objects: copies and helpers (oracle + Pat/Dag.v)
     check_dags(run, gen)
     check_arrayindex_revival(run, gen)
+    check_clocked(run)
 
     # ---- several instances / copies alive together, rewound at different moments
     inst_cases = check_instances(run, gen)
@@ -1444,6 +1667,24 @@ def check(run):
 
 def replay(run, doc):
     case = doc.get("case", {})
+    if "clocked" in case:
+        c = dict(case["clocked"])
+        c.setdefault("timeline", "stub"); c.setdefault("t0", 0); c.setdefault("steps", []); c.setdefault("track", None)
+        out = run.impl("c09_impl", {"cases": [{"clocked": {k: c[k] for k in ("src", "inner", "timeline", "t0", "steps", "track")}}]})["cases"][0]
+        print("source:   ", c["src"])
+        print("clock:     t0 = %d, advances %r (units of 1/%d beat), timeline %s" % (c["t0"], c["steps"], CLK_UNIT, c["timeline"]))
+        print("next():   ", [pretty_obs(o) for o in out.get("obs", [])[1:]])
+        bad = judge_sticky(out["obs"]) if out.get("obs") else None
+        if out.get("track") is not None:
+            print("track:    ", out["track"])
+            if not out["track"].get("error") and not out["track"]["ended"]:
+                bad = bad or {"track": "still on the timeline after %d ticks" % out["track"]["ticks"]}
+        if bad:
+            print("REPLAY-FAILS:", bad)
+            print("VIOLATION property=C09 replay=(replayed)")
+            return 1
+        print("replay: the property holds on this case")
+        return 0
     if case.get("instances"):
         lib_classes(run)
         c = {"cls": "?", "src": case["src"], "finite": True, "script": case["ops"], "track": None, "refn": INST_REFN}
